@@ -11,10 +11,10 @@ RULE = (
     'the actual end value of the previous step; |uend - uend_ref| must not exceed kappa_end * (actual defect) + 256*eps*kappa*|U|. '
     'Non-trivial = multi-step or multi-level or a fault fired; distinct = distinct digest.'
 )
-COMPONENTS_REAL = ['controller_nonMPI, Step, Level', 'generic_implicit, explicit, imex_1st_order sweepers', 'BaseTransfer, mesh_to_mesh, mesh_to_mesh_fft, TransferMesh_NoCoarse', 'CheckConvergence', 'testequation0d, test_equation_IMEX, heatNd_unforced/forced, advectionNd']
-COMPONENTS_STUB = ['none of pySDC; reference model = dense collocation solve in the harness']
+COMPONENTS_REAL = ['controller_nonMPI, Step, Level', 'generic_implicit, explicit, imex_1st_order, multi_implicit sweepers', 'BaseTransfer, mesh_to_mesh, mesh_to_mesh_fft, TransferMesh_NoCoarse', 'CheckConvergence', 'testequation0d, test_equation_IMEX, heatNd_unforced/forced, advectionNd']
+COMPONENTS_STUB = ['none of pySDC; reference model = dense collocation solve in the harness', 'sim/massproblem.TwoPartDahlquist: harness-owned problem class for the multi_implicit sweeper']
 ASSUMPTIONS = ['linear (affine) problems only: A and b(t) are probed from a shadow instance', 'the bound uses the actual defect recomputed by the harness at post_step, so it holds for converged and budget-limited steps alike',
-               'multi_implicit is not driven (no two-implicit-part linear problem importable without optional libraries)', 'controller_MPI flavour: C08']
+               'multi_implicit is driven on a harness-owned linear problem with two implicit parts (sim/massproblem.TwoPartDahlquist)', 'controller_MPI flavour: C08']
 PROBES = ['step_converged_to_tolerance', 'step_not_converged_budget', 'soft_add', 'soft_garbage']
 
 
